@@ -688,3 +688,30 @@ Fixpoint rounds_sepb (tbl : list cls) (key : Z -> text) (fuel : nat) (d : tdata)
 Definition tier_sepb (a : snap) : bool :=
   is_nil (a_deps a) ||
   rounds_sepb (a_classes a) (class_key a) (S (length (data0 (a_deps a)))) (data0 (a_deps a)).
+
+(* ---------------------------------------------------------------- xs:import completeness *)
+(** XSD part 1, 4.2.3 (src-resolve.4): a schema document may refer to components of
+    its own target namespace, of the XSD namespace, and of the namespaces it
+    imports.  [wf_importsb] is the decidable form of what Interface.add_class /
+    add_method register in Interface.imports (hypothesis of C07_imports_closed),
+    evaluated by the harness on every snapshot. *)
+Definition imp_of (a : snap) (ns : text) : list text :=
+  match lookup ns (a_imports a) with Some l => l | None => [] end.
+Definition okrefb (a : snap) (ns : text) (q : qn) : bool :=
+  text_eqb (fst q) ns || text_eqb (fst q) xsd_ns || memt (fst q) (imp_of a ns).
+Definition wf_importsb (a : snap) : bool :=
+  forallb (fun c =>
+     negb (is_complex c) ||
+     ((match c_base c with
+       | Some b => match find_cls (a_classes a) b with
+                   | Some bc => okrefb a (c_ns c) (c_ns bc, c_tn bc)
+                   | None => true
+                   end
+       | None => true
+       end)
+      && forallb (fun f => match find_cls (a_classes a) (snd f) with
+                           | Some vc => okrefb a (c_ns c) (c_ns vc, c_tn vc)
+                           | None => true
+                           end) (c_fields c)
+      && okrefb a (c_ens c) (c_ns c, c_tn c))) (a_classes a)
+  && forallb (fun x => okrefb a (a_tns a) (m_tns x, m_tn x)) (meth_io a).
